@@ -201,7 +201,7 @@ def shard_run(n_machines, steps, sd):
     pools = []
 
     @hypothesis.seed(sd)
-    @settings(max_examples=1, database=None, deadline=None, phases=(Phase.generate,), suppress_health_check=list(HealthCheck))
+    @settings(max_examples=6, database=None, deadline=None, phases=(Phase.generate,), suppress_health_check=list(HealthCheck))   # the first example Hypothesis generates is the minimal one: keep the last of six
     @hypothesis.given(pool_strategy())
     def draw(p):
         pools.append(p)
